@@ -7,7 +7,7 @@ ggvars == <<gvars, hist>>
 GInit == Init /\ hist = <<>>
 GNext == Next /\ hist' = Append(hist, gret')
 GSpec == GInit /\ [][GNext]_ggvars
-View == <<slot, ncalls, dead>>
+View == <<slot, ncalls, dead, gret>>   \* gret: every call outcome from every wiring is the last call of some witness
 
 SubsetsOfMods == SUBSET Mods
 GateObs(g) == [g |-> g, kind |-> Kind(slot, g), path |-> PathFrom(slot, g), end |-> EndOf(slot, g)]
